@@ -1341,11 +1341,19 @@ PREFIX(_intersect_rect) (region_type_t *dest,
     region.extents.x2 = x + width;
     region.extents.y2 = y + height;
 
-    /* A rectangle without points is the empty region, not a single
-     * rectangle with degenerate extents.
+    /* A rectangle without points: the result is the empty region, not a
+     * single rectangle with degenerate extents.
      */
     if (!GOOD_RECT (&region.extents))
-	region.data = pixman_region_empty_data;
+    {
+	if (PIXREGION_NAR (source))
+	    return pixman_break (dest);
+
+	FREE_DATA (dest);
+	dest->extents = *pixman_region_empty_box;
+	dest->data = pixman_region_empty_data;
+	return TRUE;
+    }
 
     return PREFIX(_intersect) (dest, source, &region);
 }
